@@ -14,6 +14,10 @@ ALSO_SERVES = {
 }
 
 
+# harnesses that the mapping above does not extend (functions that the other properties' code paths do not call)
+OWN_PROPS_ONLY = {('sorted_object_insert', n) for n in ('merge_step', 'merge_hint_step', 'merge_or_update_step', 'merge_or_update_hint_step')}
+
+
 def load_unit(name):
     d = os.path.join(UNITS_DIR, name)
     p = os.path.join(d, 'recipe.py')
@@ -27,6 +31,8 @@ def load_unit(name):
     # properties a unit serves in addition to the ones its recipe names (the same function often carries several properties: a JSON Pointer edit
     # is also a JSON Patch step, a decoder is also one half of a round trip); kept in one place so that the mapping can be reviewed as a whole
     for h in mod.HARNESSES:
+        if getattr(h, 'own_props_only', False) or (name, h.name) in OWN_PROPS_ONLY:
+            continue
         for q in ALSO_SERVES.get(name, ()):
             if q not in h.props:
                 h.props = list(h.props) + [q]
